@@ -9,7 +9,10 @@
 (*            each a sequence of <<key, value>>; values are "n"/"s"        *)
 (*            scalars, "l" lists, "d" dictionaries (sequence of <<key,     *)
 (*            scalar>>), "v" 7-vectors, "c" classes by qualified name,     *)
-(*            "nan" for a missing value and "o" for anything else.         *)
+(*            "t" date-times, "a" ase.Atoms by formula, "nan" for a missing *)
+(*            value and "o" for anything else (booleans arrive as numbers). *)
+(*   opt      delimiter, min_frequency_cutoff, include_imaginary and the   *)
+(*            modes of the OUTCAR files the sheet names.                    *)
 (* The verdict is computed from the sheet alone with the operators of      *)
 (* ExcelRecords.tla: Expected(sheet) is what the property requires.         *)
 (* Clauses name what differs.  Verdicts are total.                         *)
@@ -35,19 +38,21 @@ ObsAtoms(v) == IF v.t \in {"l", "v"} THEN {v.v[k] : k \in 1..Len(v.v)}
 RecObsAtoms(rc) == UNION {ObsAtoms(p[2]) : p \in rc}
 
 \* clauses failing on one row whose record differs from the required one
-RowClauses(cls, rows, k, ob, ex) ==
+RowClauses(cls, rows, k, ob, ex, opt) ==
    LET row == rows[k]
        n == Len(cls)
        KeysOf(c) == {cls[j].a : j \in {i \in 1..n : cls[i].cls = c}}
        atoms == RecObsAtoms(ob)
-       own == RowAtoms(row) \cup Derived(cls, row)
+       own == RowAtoms(row) \cup DerivedO(cls, row, opt)
        others == UNION {RowAtoms(rows[j]) : j \in (1..Len(rows)) \ {k}}
        explicitMode(key) == \E j \in 1..n : cls[j].cls = "mode" /\ cls[j].a = key /\ ~IsEmpty(row[j])
        allKeys == Keys(ob) \cup Keys(ex)
        Group(key) ==
           IF key \in KeysOf("ordinary") THEN "OrdinaryPassThrough"
           ELSE IF key = T_elements THEN "Composition"
-          ELSE IF key = T_vib_wavenumbers THEN "VibList"
+          ELSE IF key = T_atoms THEN "AtomsObject"
+          ELSE IF key = T_vib_wavenumbers THEN
+               (IF \E j \in 1..n : cls[j].cls = "outcar" /\ ~IsEmpty(row[j]) THEN "VibOutcar" ELSE "VibList")
           ELSE IF key = T_rot_temperatures THEN "RotList"
           ELSE IF key \in KeysOf("list") THEN "ListField"
           ELSE IF key \in KeysOf("dict") THEN "DictField"
@@ -59,25 +64,27 @@ RowClauses(cls, rows, k, ob, ex) ==
    IN {Group(key) : key \in {q \in allKeys : ~KeyOK(ob, ex, q)}}
       \cup (IF \E a \in atoms : a.t = "nan" THEN {"NoEmptyCells"} ELSE {})
       \cup (IF \E a \in atoms : a \notin own /\ a \in others THEN {"NoLeak"} ELSE {})
-      \cup (IF \E a \in atoms : a.t = "s" /\ a.v # Trim(a.v) THEN {"CellTrimmed"} ELSE {})
-      \cup (IF \E q \in Keys(ob) : q # Trim(q) THEN {"HeaderTrimmed"} ELSE {})
+      \cup (IF \E a \in atoms : a.t = "s" /\ a.v # Strip(a.v) THEN {"CellTrimmed"} ELSE {})
+      \cup (IF \E q \in Keys(ob) : q # Strip(q) THEN {"HeaderTrimmed"} ELSE {})
       \cup (IF Keys(ob) # Keys(ex) THEN {"ExactKeys"} ELSE {})
 
 ReadClauses(e) ==
-   LET sheet == [headers |-> e.headers, rows |-> e.rows] IN
+   LET opt == [delim |-> e.opt.delim, cutoff |-> e.opt.cutoff, imag |-> e.opt.imag,
+               files |-> {<<p[1], p[2]>> : p \in Range(e.opt.files)}]
+       sheet == [headers |-> e.headers, rows |-> e.rows, opt |-> opt] IN
    IF ~SheetInQuantifier(sheet) THEN {"OutsideQuantifier"}        \* a generator defect, not a verdict
    ELSE IF e.raised # "" THEN {"Raises"}
    ELSE
-     LET cls == DocClasses(e.headers)
+     LET cls == DocClassesD(e.headers, opt.delim)
          nr == Len(e.rows)
-         ex == [k \in 1..nr |-> ExpectedRow(cls, e.rows[k])]
+         ex == [k \in 1..nr |-> ExpectedRowO(cls, e.rows[k], opt)]
          ob == [k \in 1..Len(e.records) |-> ObsRecord(e.records[k])]
      IN IF Len(e.records) # nr THEN {"OneRecordPerRow"}
         ELSE IF \A k \in 1..nr : RowEq(ob[k], ex[k]) THEN {}
         ELSE IF /\ \A k \in 1..nr : \E j \in 1..nr : RowEq(ob[k], ex[j])
                 /\ \A j \in 1..nr : \E k \in 1..nr : RowEq(ob[k], ex[j])
              THEN {"RowOrder"}
-        ELSE UNION {RowClauses(cls, e.rows, k, ob[k], ex[k]) : k \in {j \in 1..nr : ~RowEq(ob[j], ex[j])}}
+        ELSE UNION {RowClauses(cls, e.rows, k, ob[k], ex[k], opt) : k \in {j \in 1..nr : ~RowEq(ob[j], ex[j])}}
 
 Clauses(e) == IF e.ev = "read" THEN ReadClauses(e) ELSE {"UnknownEvent"}
 
